@@ -54,10 +54,10 @@ def run_checks(d, ids, scale=None):
     return res
 
 
-def ingest(prop, x, all_checks=True):
-    src = f'/tmp/wt_{prop.lower()}/SEEDED/{x}'
+def ingest(prop, x, all_checks=True, root=None, name=None):
+    src = f'{root or "/tmp/wt_" + prop.lower()}/SEEDED/{x}'
     patch, demo = f'{src}/patch.diff', f'{src}/demo.py'
-    sid = f'{prop.upper()}-{x}'
+    sid = f'{prop.upper()}-{name or x}'
     print(f'== {sid}')
     # 1. clean tree: demo passes
     clean = f'/tmp/seedclean_{os.getpid()}'
@@ -112,6 +112,8 @@ def rerun(sid, ids):
 
 if __name__ == '__main__':
     if sys.argv[1] == 'ingest':
-        ingest(sys.argv[2], sys.argv[3], all_checks=('--only' not in sys.argv))
+        root = sys.argv[sys.argv.index('--root') + 1] if '--root' in sys.argv else None
+        name = sys.argv[sys.argv.index('--as') + 1] if '--as' in sys.argv else None
+        ingest(sys.argv[2], sys.argv[3], all_checks=('--only' not in sys.argv), root=root, name=name)
     elif sys.argv[1] == 'run':
         rerun(sys.argv[2], sys.argv[3:])
